@@ -1503,6 +1503,176 @@ theorem parseExpr_renderExpr (e : List Tok) (hne : e ≠ []) (hwf : ∀ t ∈ e,
   rw [xpSteps_render e hne hwf hN]
   exact mapM_parseTok e hwf
 
+/-! ### when the rendered text contains no `**/**`: no plain `**` token directly before a `**…` token -/
+
+theorem startsWith_mem (s p : Str) (h : startsWith s p = true) : ∀ c ∈ p, c ∈ s := by
+  induction p generalizing s with
+  | nil => intro c hc; cases hc
+  | cons x p ih =>
+    cases s with
+    | nil => simp [startsWith] at h
+    | cons y s =>
+      simp only [startsWith, Bool.and_eq_true, beq_iff_eq] at h
+      intro c hc
+      rcases List.mem_cons.1 hc with e | e
+      · subst e; rw [h.1]; simp
+      · exact List.mem_cons_of_mem _ (ih s h.2 c e)
+
+theorem isInfix_noSlash (a : Str) (ha : ∀ c ∈ a, c ≠ '/') : isInfix starsPat a = false := by
+  induction a with
+  | nil => rfl
+  | cons c a ih =>
+    simp only [isInfix, Bool.or_eq_false_iff]
+    refine ⟨?_, ih (fun x hx => ha x (by simp [hx]))⟩
+    cases hs : startsWith (c :: a) starsPat with
+    | false => rfl
+    | true =>
+      have := startsWith_mem _ _ hs '/' (by decide)
+      exact absurd rfl (ha '/' this)
+
+theorem isInfix_append_slash (a R : Str) (ha : ∀ c ∈ a, c ≠ '/') (hR : isInfix starsPat R = false)
+    (hpair : startsWith R star2 = true → ∀ pre, a ≠ pre ++ star2) :
+    isInfix starsPat (a ++ '/' :: R) = false := by
+  induction a with
+  | nil =>
+    simp only [List.nil_append, isInfix, Bool.or_eq_false_iff]
+    exact ⟨by simp [startsWith, starsPat], hR⟩
+  | cons c a ih =>
+    have ih' := ih (fun x hx => ha x (by simp [hx]))
+      (fun hs pre e => hpair hs (c :: pre) (by rw [e]; rfl))
+    simp only [List.cons_append, isInfix, Bool.or_eq_false_iff]
+    refine ⟨?_, ih'⟩
+    cases hs : startsWith (c :: (a ++ '/' :: R)) starsPat with
+    | false => rfl
+    | true =>
+      exfalso
+      cases a with
+      | nil => simp [startsWith, starsPat] at hs
+      | cons d a =>
+        cases a with
+        | nil =>
+          simp [startsWith, starsPat] at hs
+          obtain ⟨hc, hd, hR1⟩ := hs
+          subst hc; subst hd
+          have hsw : startsWith R star2 = true := by
+            cases R with
+            | nil => simp [startsWith] at hR1
+            | cons r1 R =>
+              cases R with
+              | nil => simp [startsWith] at hR1
+              | cons r2 R => simp [startsWith] at hR1; simp [startsWith, star2, hR1.1, hR1.2]
+          exact hpair hsw [] rfl
+        | cons f a =>
+          simp [startsWith, starsPat] at hs
+          exact ha f (by simp) hs.2.2.1
+
+/-- no plain `**` token directly followed by a token whose tag is `**` -/
+def NoDD : List Tok → Prop
+  | x :: y :: rest => ¬ (x = some stDeep ∧ ∃ st, y = some st ∧ st.tag = star2) ∧ NoDD (y :: rest)
+  | _ => True
+
+theorem renderTok_ends_stars (x : Tok) (h : WfTok x) (pre : Str) (e : renderTok x = pre ++ star2) :
+    x = some stDeep := by
+  have hlast : (renderTok x).getLast? = some '*' := by rw [e]; simp [star2]
+  have hlen : 2 ≤ (renderTok x).length := by rw [e]; simp [star2]
+  cases x with
+  | none => simp [renderTok, dotdot] at hlast
+  | some st =>
+    obtain ⟨tag, idx, cond⟩ := st
+    obtain ⟨ht, hc⟩ := h
+    simp only [renderTok, renderStepE] at hlast hlen
+    have hbr : ∀ X : Str, (X ++ [']']).getLast? = some '*' → False := by
+      intro X hX
+      rw [List.getLast?_concat] at hX
+      simp at hX
+    cases cond with
+    | some ov =>
+      obtain ⟨op, v⟩ := ov
+      exfalso
+      apply hbr (tag ++ renderIdx idx ++ (['[', 't', 'e', 'x', 't', '(', ')'] ++ op ++ v))
+      rw [← hlast]
+      simp [renderCond]
+    | none =>
+      cases idx with
+      | some j =>
+        exfalso
+        cases j with
+        | none =>
+          apply hbr (tag ++ ['[', '*'])
+          rw [← hlast]
+          simp [renderIdx, renderCond]
+        | some k =>
+          apply hbr (tag ++ '[' :: dec k)
+          rw [← hlast]
+          simp [renderIdx, renderCond]
+      | none =>
+        simp only [renderIdx, renderCond, List.append_nil] at hlast hlen
+        rcases ht with ht | ht | ⟨_, hw⟩
+        · simp only at ht; subst ht; simp [star] at hlen
+        · simp only at ht; subst ht; rfl
+        · have := hw '*' (List.mem_of_getLast? hlast)
+          have hns : isWord '*' = false := by decide
+          rw [hns] at this
+          cases this
+
+theorem renderTok_starts_stars (y : Tok) (h : WfTok y) (rest : Str)
+    (hr : rest = [] ∨ ∃ r, rest = '/' :: r) (hs : startsWith (renderTok y ++ rest) star2 = true) :
+    ∃ st, y = some st ∧ st.tag = star2 := by
+  cases y with
+  | none => simp [renderTok, dotdot, startsWith, star2] at hs
+  | some st =>
+    obtain ⟨tag, idx, cond⟩ := st
+    obtain ⟨ht, _⟩ := h
+    rcases ht with ht | ht | ⟨hne, hw⟩
+    · simp only at ht; subst ht
+      exfalso
+      rcases renderIdxCond_rest idx cond with h0 | ⟨r, h0⟩
+      · simp only [renderTok, renderStepE, h0] at hs
+        rcases hr with hr | ⟨r, hr⟩ <;> subst hr <;> simp [star, startsWith, star2] at hs
+      · simp only [renderTok, renderStepE, h0] at hs
+        simp [star, startsWith, star2] at hs
+    · exact ⟨_, rfl, ht⟩
+    · exfalso
+      simp only at hne hw
+      cases tag with
+      | nil => exact absurd rfl hne
+      | cons c t =>
+        simp [renderTok, renderStepE, startsWith, star2] at hs
+        have := hw c (by simp)
+        have hns : isWord '*' = false := by decide
+        rw [hs.1, hns] at this
+        cases this
+
+theorem join_render_cons (y : Tok) (ys : List Tok) :
+    ∃ rest, join ['/'] ((y :: ys).map renderTok) = renderTok y ++ rest ∧ (rest = [] ∨ ∃ r, rest = '/' :: r) := by
+  cases ys with
+  | nil => exact ⟨[], by simp [join], Or.inl rfl⟩
+  | cons z zs => exact ⟨'/' :: join ['/'] ((z :: zs).map renderTok), by simp [join], Or.inr ⟨_, rfl⟩⟩
+
+/-- **the `**/**` hypothesis, structurally**: a rendered grammar expression contains `**/**` only
+if a plain `**` token is directly followed by a `**…` token -/
+theorem renderExpr_noStars (e : List Tok) (hwf : ∀ t ∈ e, WfTok t) (hdd : NoDD e) :
+    isInfix starsPat (renderExpr e) = false := by
+  unfold renderExpr
+  induction e with
+  | nil => rfl
+  | cons x rest ih =>
+    cases rest with
+    | nil =>
+      simp only [List.map_cons, List.map_nil, join]
+      exact isInfix_noSlash _ (stepOK_renderTok x (hwf x (by simp))).1
+    | cons y ys =>
+      obtain ⟨hxy, hdd'⟩ := hdd
+      have ihh := ih (fun t ht => hwf t (by simp [ht])) hdd'
+      obtain ⟨r, hj, hr⟩ := join_render_cons y ys
+      simp only [List.map_cons, join, List.append_assoc, List.singleton_append] at ihh ⊢
+      simp only [List.map_cons] at hj
+      apply isInfix_append_slash _ _ (stepOK_renderTok x (hwf x (by simp))).1 ihh
+      intro hs pre epre
+      rw [hj] at hs
+      exact hxy ⟨renderTok_ends_stars x (hwf x (by simp)) pre epre,
+        renderTok_starts_stars y (hwf y (by simp)) r hr hs⟩
+
 /-! ## Part 3: `get_attrib` -/
 
 def attribOf : Elem → Attr
